@@ -19,16 +19,18 @@ structure ParseOut where
   semErrors : Nat
   lexErrors : Nat
   toks : List TokOut
+  infos : Array TokInfo        -- what the positions of `root` refer to
   fault : Option String
 
 /-- `parser.Parse(src, {Version})` for a version of the family that `tables` / `paths` belong to -/
 def parseBytes (pr : ScanProg) (t : YYTab) (combs : List PosComb) (tbl : PathTable) (numString : Nat) (ge73 : Bool) (src : Array UInt8) : ParseOut :=
   let (ls, toks) := lexAllModel src pr (src.size + 16) (initLex src ge73 113) []
   match ls.fault with
-  | some m => { code := none, root := none, semErrors := 0, lexErrors := ls.errs.length, toks := toks, fault := some ("scanner: " ++ m) }
+  | some m => { code := none, root := none, semErrors := 0, lexErrors := ls.errs.length, toks := toks, infos := #[], fault := some ("scanner: " ++ m) }
   | none =>
-    match parseModel t combs tbl (toks.map (tokInfoOf numString src)).toArray with
-    | .error _ => { code := none, root := none, semErrors := 0, lexErrors := ls.errs.length, toks := toks, fault := some "driver" }
-    | .ok (c, s) => { code := c, root := s.aux.root, semErrors := s.aux.reports, lexErrors := ls.errs.length, toks := toks, fault := none }
+    let infos := (toks.map (tokInfoOf numString src)).toArray
+    match parseTokens t combs tbl infos with
+    | .error _ => { code := none, root := none, semErrors := 0, lexErrors := ls.errs.length, toks := toks, infos := infos, fault := some "driver" }
+    | .ok (c, s) => { code := c, root := s.aux.root, semErrors := s.aux.reports, lexErrors := ls.errs.length, toks := toks, infos := infos, fault := none }
 
 end PhpVerif
